@@ -1,0 +1,13 @@
+//go:build !verif
+// +build !verif
+
+package backend
+
+import "time"
+
+// timeNow is the clock of the fuse / recovery / health-check code.  In normal builds it is
+// time.Now; the `verif` build tag replaces it with an injectable clock (clock_verif_on.go).
+func timeNow() time.Time { return time.Now() }
+
+// newTicker creates the ticker of the periodic health-check loops (time.NewTicker in normal builds).
+func newTicker(d time.Duration) *time.Ticker { return time.NewTicker(d) }
